@@ -132,7 +132,8 @@ class Bits:
       if idx.step:
         raise IndexError( "Index cannot contain step" )
       try:
-        start, stop = int(idx.start or 0), int(idx.stop or self._nbits)
+        start = 0 if idx.start is None else int(idx.start)
+        stop  = self._nbits if idx.stop is None else int(idx.stop)
         assert 0 <= start < stop <= self._nbits
       except:
         raise IndexError( f"Invalid access: [{idx.start}:{idx.stop}] in a Bits{self._nbits} instance" )
@@ -155,7 +156,8 @@ class Bits:
       if idx.step:
         raise IndexError( "Index cannot contain step" )
       try:
-        start, stop = int(idx.start or 0), int(idx.stop or self._nbits)
+        start = 0 if idx.start is None else int(idx.start)
+        stop  = self._nbits if idx.stop is None else int(idx.stop)
         assert 0 <= start < stop <= self._nbits
       except:
         raise IndexError( f"Invalid access: [{idx.start}:{idx.stop}] in a Bits{self._nbits} instance" )
